@@ -24,6 +24,12 @@ VOCAB: Dict[int, tuple] = {
     6: (H1, wire.T_A, b'\x0a\x00\x00\x02', 'a', 1),
     7: (H1, wire.T_AAAA, b'\xfe\x80' + b'\0' * 13 + b'\x01', 'aaaa', 1),
     8: (H2, wire.T_A, b'\x0a\x00\x00\x09', 'a', 2),
+    # records that have nothing to say about the service although they share a name with something that does: an address record
+    # owned by the instance name, TXT and SRV records owned by a host name
+    9: (INST, wire.T_A, b'\x0a\x09\x09\x09', 'decoy', 0),
+    10: (H1, wire.T_TXT, b'\x03a=9', 'decoy', 0),
+    11: (H1, wire.T_SRV, (0, 0, 99, H2), 'decoy', 0),
+    12: (H2, wire.T_TXT, b'\x03a=8', 'decoy', 0),
 }
 QIDX = {wire.T_SRV: 1, wire.T_TXT: 2, wire.T_A: 3, wire.T_AAAA: 4}
 
@@ -39,7 +45,10 @@ for _i, _v in VOCAB.items():
 
 
 def vocab_json() -> List[dict]:
-    return [{'id': i, 'kind': v[3], 'host': v[4], 'rr': RR[(low(v[0]), v[1])]} for i, v in sorted(VOCAB.items())]
+    # dq: the question (3 = A, 4 = AAAA on the instance name, asked while the host is unknown) a decoy record is a known answer of
+    return [{'id': i, 'kind': v[3], 'host': v[4], 'rr': RR[(low(v[0]), v[1])],
+             'dq': (3 if v[1] == wire.T_A else 4) if v[3] == 'decoy' and v[0] == INST and v[1] in (wire.T_A, wire.T_AAAA) else 0}
+            for i, v in sorted(VOCAB.items())]
 
 
 def recase(s: str, k: int) -> str:
@@ -255,7 +264,7 @@ def gen_lookup(rng: random.Random, sid: str, thorough: bool = False) -> dict:
         for i in [txt] + addr_ids:
             pre(i)
     else:
-        for i in [srv, txt] + addr_ids + ([other_addr] if rng.random() < 0.4 else []):
+        for i in [srv, txt] + addr_ids + ([other_addr] if rng.random() < 0.4 else []) + (rng.sample([9, 10, 11, 12], 2) if rng.random() < 0.15 else []):
             pre(i)
     if rng.random() < 0.1:
         # another lookup for the same instance is already under way on this host
@@ -267,6 +276,8 @@ def gen_lookup(rng: random.Random, sid: str, thorough: bool = False) -> dict:
     for _ in range(rng.choice([0, 1, 2, 3, 4])):
         off = rng.choice(offs)
         ids = rng.sample([srv, txt] + addr_ids + [other_addr], rng.choice([1, 1, 2, 3]))
+        if rng.random() < 0.2:
+            ids += rng.sample([9, 10, 11, 12], rng.choice([1, 2]))
         ids.sort(key=lambda i: rng.random())
         items = [{'id': i, 'ttl': rng.choice([120, 4500, 0, 1]), 'fl': rng.random() < 0.5, 'sp': rng.randint(0, 2)} for i in ids]
         evs.append((t0 + max(0, off), {'op': 'recv', 'items': items}))
